@@ -43,6 +43,11 @@ class C10(Spec):
         "size: for the shape SUBQ $n,SP; body; ADDQ $n,SP; RET; tail the runtime reads back the SP displacement of each region; "
         "regenerated facts show the three assemblers emit that shape with n = the frame size given to Load and write SP nowhere else. "
         "NOT MODELLED: instruction encodings and sizes (golang-asm), and that the out-of-line tail is entered only from the body.",
+        "Static tie (regenerated): every mallocgc call sonic's Go code makes or its assemblers emit either passes needzero=true or is "
+        "listed in the hand-written expectation table of Props/C10Code.lean as an allocation of a pointer-free type; rt.NoEscape(&local) "
+        "occurs only under `if vt.Indirect()`. That a listed type really is pointer-free, and that zeroed memory is then written "
+        "consistently, is NOT proved. The nullarena / vmrecurse streams search for failing inputs (dirty heap + null elements under "
+        "the optdec fast-map arena; stack move during a Marshaler call-out under the VM encoder).",
         "The gcslot stream is a FAILING-INPUT SEARCH aimed at single pointer slots (the vk argument word, _Stack.ep, callback receivers, "
         "the encoder's buffer and state stack): finalizer and poisoned-reuse probes inside callbacks, results compared with a quiet run. "
         "It finds the two seeded defects with a replay; a clean run is still not a proof.",
@@ -77,13 +82,20 @@ class C10(Spec):
             st.append(Stream("stackmap+loadtabs", "c10.stackmap", 400 if q else 30000))
         # failing-input search aimed at the pointer slots the stack maps / layout theorems speak about
         st.append(Stream("gcslot(pointer-slot search)", "c10.gcslot", 8 if q else 120, envs=gc_envs, timeout=30.0, use_model=False))
+        # memory handed to the runtime as pointer-typed must be zeroed / fully written (optdec fast-map arena)
+        st.append(Stream("nullarena(un-zeroed pointer memory)", "c10.nullarena", 10 if q else 200,
+                         envs={"optdec-fastmap": {"SONIC_USE_OPTDEC": "1", "SONIC_USE_FASTMAP": "1"}, "default": {}},
+                         timeout=30.0, use_model=False))
+        # no address of a local may survive in heap state across a stack move (VM encoder state stack)
+        st.append(Stream("vmrecurse(stack move during call-out)", "c10.vmrecurse", 6 if q else 120,
+                         envs={"vm": {"SONIC_ENCODER_USE_VM": "1"}, "default": {}}, timeout=30.0, use_model=False))
         st.append(Stream("gcstress(exploration)", "c10.gcstress", 12 if q else 200, envs=gc_envs, timeout=20.0, use_model=False))
         st.append(Stream("gcstress-syncgc(exploration)", "c10.gcstress.sync", 2 if q else 10,
                          envs={"syncgc": {"SONIC_SYNC_GC": "1"}}, timeout=180.0, use_model=False))
         return st
 
     def model_line(self, case, sonic):
-        if case[0] in ("gcstress", "gcslot"):
+        if case[0] in ("gcstress", "gcslot", "nullarena", "vmrecurse"):
             return None
         return "\t".join(case)
 
@@ -106,7 +118,7 @@ class C10(Spec):
         for env, s in sonic.items():
             sv = s.get("sonic")
             if sv in ("CRASH", "HANG", "PANIC") and not (op in ("pcdata", "pcline", "loadtabs") and sv == "PANIC"):
-                kind = "crash" if op not in ("gcstress", "gcslot") else "runtime-crash-in-generated-code"
+                kind = "crash" if op not in ("gcstress", "gcslot", "nullarena", "vmrecurse") else "runtime-crash-in-generated-code"
                 out.append((kind, "%s: %s" % (env, s)))
                 continue
             if sv == "unsupported" or sv is None:
@@ -114,6 +126,14 @@ class C10(Spec):
             if op == "gcstress":
                 if sv != "ok":
                     out.append(("value-corrupted-under-gc", "%s: %s" % (env, s)))
+                continue
+            if op == "nullarena":
+                if sv != "ok":
+                    out.append(("unzeroed-pointer-memory-visible", "%s: %s" % (env, s)))
+                continue
+            if op == "vmrecurse":
+                if sv != "ok":
+                    out.append(("stale-stack-address-in-heap-state", "%s: %s" % (env, s)))
                 continue
             if op == "gcslot":
                 if sv != "ok":
@@ -160,6 +180,10 @@ class C10(Spec):
             return True
         if op == "stackmap":
             return case[1] != "-"
+        if op == "nullarena":
+            return any(s.get("sonic") == "ok" and int(s.get("elems", "0") or 0) > 0 for s in sonic.values())
+        if op == "vmrecurse":
+            return any(s.get("sonic") == "ok" and int(s.get("burns", "0") or 0) > 0 for s in sonic.values())
         if op == "gcslot":
             for s in sonic.values():
                 if s.get("sonic") == "ok" and int(s.get("calls", "0") or 0) > 0 and "note" not in s:
